@@ -419,10 +419,13 @@ def run(ctx: Context):
                              and attr_path(c.func.value) == dv4 for c in node_calls(n))
         fires = lambda n: any(call_name(c) in ("self._deferred.callback", "self._deferred.errback") for c in node_calls(n))
         _must_pass(r, fnx, lambda n: arms(n) or fires(n), "firing the read's Deferred or arming the _error errback")
-        last = chain[-1] if chain else None
-        r.require(last is not None and attr_path(last.target) == "self._error" and last.kind in ("eb", "both"),
-                  fnx, fnx.loc(last.call if last else None), "the last registration on the segment Deferred is not the "
-                  "_error errback: a failure of a later callback is dropped and the read never finishes")
+        i_err = [i for i, x in enumerate(chain) if attr_path(x.target) == "self._error" and x.kind in ("eb", "both")]
+        if i_err:
+            late = [x for x in chain[i_err[-1] + 1:] if x.kind != "eb"]
+            r.require(not late, fnx, fnx.loc(late[0].call if late else None), "a callback is registered behind the _error "
+                      "errback: its failure is dropped and the read never finishes")
+            r.require(i_err[-1] > i_got[0], fnx, fnx.loc(chain[i_err[-1]].call), "the _error errback sits ahead of "
+                      "_got_segment, whose exceptions (wrong segment, consumer errors) then fire nothing")
 
         rq = idx.func(SEG + "._request_retired")
         r.site(rq, None)
